@@ -38,6 +38,7 @@ def run(ctx, rep):
     nl = totality.check_termination(ctx, rep, E, ec)
     nr = totality.check_recursion(ctx, rep, E)
     totality.check_definite_assignment(ctx, rep, E)
+    totality.check_none_as_index(ctx, rep, E)
     totality.check_table_shape(ctx, rep, E)
     totality.check_cache_shape(ctx, rep, E)
     # EST-CAPACITY_NONNEG: the grammar functions assume an accepted atom has capacity >= 0 (a negative capacity later
